@@ -9,6 +9,9 @@ __setitem__/__setattr__ fault at any segment, raising factory): an exception mus
 raised and A's deep structure+identity snapshot must be unchanged.
 """
 from collections import OrderedDict
+import sys
+import json
+import subprocess
 
 from .. import env, gen
 from ..util import call
@@ -577,6 +580,84 @@ def attribute_vs_item_on_container_subclasses(col):
                           % (short(mk()), desc, got if not got.ok else 'returned', _attr_state(t), _attr_state(twin)), None)
 
 
+_ATTR_CASES_IN_CHILD = [
+    ('plain segment on a dict subclass', 'd.x', ('d', 'x')),
+    ('plain segment on a list subclass', 'l.1', ('l', 1)),
+    ('plain segment on a second-level dict subclass', 'd2.x', ('d2', 'x')),
+    ('plain new key on a second-level dict subclass', 'd2.fresh', ('d2', 'fresh')),
+    ('plain segment on a second-level list subclass', 'l2.0', ('l2', 0)),
+    ('plain segment on a Counter subclass', 'c.x', ('c', 'x')),
+    ('plain index past the end of a second-level list subclass', 'l2.5', None),
+]
+
+
+def _layout_child():
+    """(runs in a fresh interpreter whose heap was perturbed BEFORE the library was imported.)  The handlers of operations that
+    extensions register (assign, delete) are filed in an order that follows a set of type objects, i.e. their addresses: whichever
+    order this process got, item containers with attributes are assigned by item"""
+    out = {'cases': [], 'order': None}
+    try:
+        names = []
+
+        def walk(tree):
+            for t, sub in tree.items():
+                names.append(t.__name__)
+                walk(sub)
+        walk(gcore_registry()._op_type_tree['assign'])
+        out['order'] = 'duck-type-filed-%s-dict-and-%s-list' % ('before' if names.index('_ObjStyleKeys') < names.index('dict') else 'after',
+                                                               'before' if names.index('_ObjStyleKeys') < names.index('list') else 'after')
+    except Exception as e:
+        out['order'] = 'unobservable:%s' % type(e).__name__
+    for desc, path, edit in _ATTR_CASES_IN_CHILD:
+        t, twin = _attr_holders(), _attr_holders()
+        if edit is not None:
+            twin[edit[0]][edit[1]] = 'NEW'
+        got = call(assign, t, path, 'NEW')
+        ok = (got.ok if edit is not None else (not got.ok)) and _attr_state(t) == _attr_state(twin)
+        out['cases'].append([desc, bool(ok), '%r ; holders now %s, plain Python gives %s'
+                             % (got if not got.ok else 'returned', _attr_state(t), _attr_state(twin))])
+    print('RESULT ' + json.dumps(out))
+
+
+def gcore_registry():
+    import glom.core as gcore
+    return gcore._DEFAULT_SCOPE[gcore.TargetRegistry]
+
+
+def attribute_vs_item_in_fresh_processes(col, n_children):
+    """the same question asked in several fresh interpreters with differently laid out heaps"""
+    import concurrent.futures
+
+    def one(k):
+        code = ('junk = [bytearray(600 + 16 * %d * i) for i in range(1, 4)]\n'
+                'from rv.checks import c11\nc11._layout_child()\n' % k)
+        try:
+            p = subprocess.run([sys.executable, '-c', code], env=env.child_env({'RV_LAYOUT_PAD': 'p' * (977 * (k % 13))}), cwd=env.VERIF_DIR, timeout=300,
+                               stdout=subprocess.PIPE, stderr=subprocess.STDOUT, text=True)
+        except subprocess.TimeoutExpired:
+            return k, None, 'timeout'
+        line = [ln for ln in p.stdout.splitlines() if ln.startswith('RESULT ')]
+        if p.returncode != 0 or not line:
+            return k, None, p.stdout[-1500:]
+        return k, json.loads(line[0][7:]), None
+    ks = [0, 1, 2, 3, 5, 7, 11, 17, 29, 53, 101, 211, 4, 6, 8, 9][:n_children]
+    with concurrent.futures.ThreadPoolExecutor(max_workers=6) as ex:
+        for k, d, err in ex.map(one, ks):
+            if err:
+                col.fail_inconclusive('fresh-process child (heap perturbation %d) failed: %s' % (k, err))
+                continue
+            col.count('fresh_processes_run')
+            col.count('fresh_process_registry_order:' + str(d['order']))
+            for desc, ok, detail in d['cases']:
+                col.case(('attr-vs-item-fresh-process', desc, d['order']), True)
+                col.count('assignments_attempted')
+                col.count('attribute_vs_item_cases')
+                if not ok:
+                    col.violation('C11/container-subclass-with-attributes:wrong-namespace',
+                                  "fresh process (heap perturbation %d, registry order %s): assign(.., %r, 'NEW') [%s]: %s"
+                                  % (k, d['order'], desc, desc, detail), None)
+
+
 def reused_assign_object(col, rng):
     """one Assign object evaluated several times (list spec): every evaluation assigns ITS value, with and without missing="""
     for missing in (None, dict):
@@ -622,6 +703,7 @@ def run(ctx):
         reused_assign_object(col, rng)
         missing_before_wildcard(col)
         attribute_vs_item_on_container_subclasses(col)
+        attribute_vs_item_in_fresh_processes(col, 8 if not ctx.thorough else 12)
         wildcard_over_mixed_kinds_and_equal_holders(col)
     for i in range(ctx.n(300, 3000)):
         one_target(col, rng)
